@@ -12,8 +12,12 @@
     setmode <cur> <option>                                 -> <mode afterwards>
     wait <last_update> <refresh> <now> <notify|other|timeout|intr|error>
                                                            -> <rc> <timeout>
-    fsm <mode> <ver> <now> <ri> <ei> <yi> <e0> <r0> <y0> [N:dt:e:r:y | T:0:e:r:y | X:dt | I:dt]*
-                                                           -> S2@t W<timeout>@t S1@t ...
+    waitf <last_update> <refresh> <now> <notify|reset|pfx4> [<dt>.<n>]*
+                                                           -> <rc> <clock at return> R<len>:<timeout>@t ...
+          (the PDU arrives in fragments: n bytes dt seconds after the previous one, then silence; one R item for
+           EVERY call of the transport receive function)
+    fsm <mode> <ver> <now> <ri> <ei> <yi> <e0> <r0> <y0> [N:dt:e:r:y | T:0:e:r:y | X:dt | I:dt | F:dt.n,dt.n,..:e:r:y]*
+                                                           -> S2@t W<timeout>@t [R<len>:<timeout>@t ...] S1@t ...
 -/
 import RtrModel.Names
 import RtrModel.Intervals
@@ -42,25 +46,50 @@ def event? (s : String) : Option WaitEvent :=
   | "notify" => some .serialNotify | "other" => some .otherPdu | "timeout" => some .timeout
   | "intr" => some .intr | "error" => some .error | _ => none
 
+/-- `<dt>.<n>`: 1 ≤ n ≤ 64 bytes, dt < 10^6 seconds -/
+def frag? (w : String) : Option Frag :=
+  match w.splitOn "." with
+  | [dt, n] => do
+    let dt ← dt.toNat?; let n ← n.toNat?
+    if dt < 1000000 ∧ 1 ≤ n ∧ n ≤ 64 then pure ⟨dt, n⟩ else none
+  | _ => none
+
+def frags? (ws : List String) : Option (List Frag) :=
+  if ws.length > 24 then none else ws.mapM frag?
+
 def parseEv (w : String) : Option Ev :=
   match w.splitOn ":" with
   | ["N", dt, e, r, y] => do
     let dt ← dt.toNat?; let e ← u32? e; let r ← u32? r; let y ← u32? y
-    if dt < 1000000 then pure ⟨.serialNotify, dt, e, r, y⟩ else none
+    if dt < 1000000 then pure ⟨.serialNotify, dt, e, r, y, []⟩ else none
   | ["T", "0", e, r, y] => do
     let e ← u32? e; let r ← u32? r; let y ← u32? y
-    pure ⟨.timeout, 0, e, r, y⟩
+    pure ⟨.timeout, 0, e, r, y, []⟩
   | ["X", dt] => do
     let dt ← dt.toNat?
-    if dt < 1000000 then pure ⟨.otherPdu, dt, 0, 0, 0⟩ else none
+    if dt < 1000000 then pure ⟨.otherPdu, dt, 0, 0, 0, []⟩ else none
   | ["I", dt] => do
     let dt ← dt.toNat?
-    if dt < 1000000 then pure ⟨.intr, dt, 0, 0, 0⟩ else none
+    if dt < 1000000 then pure ⟨.intr, dt, 0, 0, 0, []⟩ else none
+  | ["F", fs, e, r, y] => do
+    let fr ← frags? (fs.splitOn ","); let e ← u32? e; let r ← u32? r; let y ← u32? y
+    if fr = [] then none else pure ⟨.serialNotify, 0, e, r, y, fr⟩
   | _ => none
+
+/-- PDU kinds of `waitf`: bytes behind the header, and whether it is a Serial Notify -/
+def pduKind? (s : String) : Option (Nat × Bool) :=
+  match s with
+  | "notify" => some (notifyBody, true)
+  | "reset" => some (0, false)
+  | "pfx4" => some (Gen.sizeof_pdu_ipv4 - Gen.sizeof_pdu_header, false)
+  | _ => none
+
+def callStr (c : RecvCall) : String := s!"R{c.len}:{c.timeout}@{c.now}"
 
 def itemStr : TraceItem → String
   | .send t now => s!"S{t}@{now}"
   | .wait t now => s!"W{t}@{now}"
+  | .recv len t now => s!"R{len}:{t}@{now}"
 
 def sockStr (s : Sock) : String := s!"{s.refresh} {s.expire} {s.retry}"
 
@@ -111,6 +140,13 @@ def step (_ : Unit) (line : String) : Unit × String :=
       let s : Sock := { refresh := refresh, expire := 7200, retry := 600, ivMode := 0, lastUpdate := last }
       ((), s!"{waitForSync ev} {waitTimeout s now}")
     | _, _, _, _ => bad
+  | "waitf" :: last :: refresh :: now :: kind :: fr =>
+    match time? last, u32? refresh, time? now, pduKind? kind, frags? fr with
+    | some last, some refresh, some now, some (body, isNotify), some fr =>
+      let s : Sock := { refresh := refresh, expire := 7200, retry := 600, ivMode := 0, lastUpdate := last }
+      let p := waitPdu s now body fr
+      ((), " ".intercalate (s!"{waitPduRc isNotify p}" :: s!"{p.now}" :: (p.hcalls ++ p.bcalls).map callStr))
+    | _, _, _, _, _ => bad
   | "fsm" :: mode :: ver :: now :: ri :: ei :: yi :: e0 :: r0 :: y0 :: evs =>
     match int32? mode, ver? ver, time? now, u32? ri, u32? ei, u32? yi, u32? e0, u32? r0, u32? y0, evs.mapM parseEv with
     | some mode, some ver, some now, some ri, some ei, some yi, some e0, some r0, some y0, some evs =>
